@@ -2520,7 +2520,7 @@ func (c *streamableClientConn) handleSSE(ctx context.Context, requestSummary str
 	retriesWithoutProgress := 0
 
 	for {
-		lastEventID, reconnectDelay, clientClosed := c.processStream(ctx, requestSummary, resp, forCall)
+		lastEventID, reconnectDelay, clientClosed := c.processStream(ctx, requestSummary, resp, forCall, prevLastEventID)
 
 		// If the connection was closed by the client, we're done.
 		if clientClosed {
@@ -2613,7 +2613,14 @@ func (c *streamableClientConn) checkResponse(ctx context.Context, requestSummary
 // incoming channel. It returns the ID of the last processed event and a flag
 // indicating if the connection was closed by the client. If resp is nil, it
 // returns "", false.
-func (c *streamableClientConn) processStream(ctx context.Context, requestSummary string, resp *http.Response, forCall *jsonrpc.Request) (lastEventID string, reconnectDelay time.Duration, clientClosed bool) {
+//
+// resumedFrom optionally holds the event ID the stream was resumed from. It
+// remains the resume cursor until an event with an ID arrives: a resumed
+// stream that is cut before its first event is still resumable.
+func (c *streamableClientConn) processStream(ctx context.Context, requestSummary string, resp *http.Response, forCall *jsonrpc.Request, resumedFrom ...string) (lastEventID string, reconnectDelay time.Duration, clientClosed bool) {
+	if len(resumedFrom) > 0 {
+		lastEventID = resumedFrom[0]
+	}
 	defer func() {
 		// Drain any remaining unprocessed body. This allows the connection to be re-used after closing.
 		io.Copy(io.Discard, resp.Body)
